@@ -105,6 +105,60 @@ theorem disabled_delivers_nothing (ops : List Op) (h : ∀ op ∈ ops, op ≠ .s
     intro op hop; simpa using h op hop
   omega
 
+/-! ### one watch task per switch from disabled to enabled, as the worker sees it
+
+The worker looks at the configuration only when it runs (`settle`); what it can see is the configured value at those
+points. `edges` counts the points at which that value has gone from disabled to enabled. -/
+
+structure Edge where
+  cur : Bool := false      -- the configured value
+  last : Bool := false     -- … at the previous settling point
+  n : Nat := 0
+  deriving DecidableEq, Repr
+
+def edgeStep (e : Edge) : Op → Edge
+  | .set b => { e with cur := b }
+  | .settle => { e with last := e.cur, n := e.n + (if e.cur && !e.last then 1 else 0) }
+  | _ => e
+
+def edges (ops : List Op) : Nat := (ops.foldl edgeStep {}).n
+
+/-- the worker's private state is exactly the edge detector: `send_close.is_some()` is the value it saw last -/
+structure Rel (s : St) (e : Edge) : Prop where
+  cur : e.cur = s.enabled
+  last : e.last = s.closeS
+  seen : s.dirty = false → s.closeS = s.enabled
+  n : s.spawned = e.n
+
+theorem rel_step (s : St) (e : Edge) (op : Op) (h : Rel s e) : Rel (step s op) (edgeStep e op) := by
+  obtain ⟨en, d, c, a, f, n, k⟩ := s
+  obtain ⟨ec, el, m⟩ := e
+  obtain ⟨h1, h2, h3, h4⟩ := h
+  simp only at h1 h2 h3 h4
+  subst h1 h2 h4
+  cases op with
+  | set b => constructor <;> simp_all [step, edgeStep]
+  | data => constructor <;> simp_all [step, edgeStep]
+  | close => constructor <;> simp_all [step, edgeStep]
+  | settle =>
+    cases ec <;> cases d <;> cases el <;> cases a <;> cases f <;> constructor <;> simp_all [step, edgeStep, settle, workerIter, watcherRun]
+
+theorem rel_run (s : St) (e : Edge) (ops : List Op) (h : Rel s e) : Rel (run s ops) (ops.foldl edgeStep e) := by
+  induction ops generalizing s e with
+  | nil => exact h
+  | cons op ops ih => exact ih _ _ (rel_step s e op h)
+
+/-- **watch tasks = switches from disabled to enabled** (as seen at the settling points), for every script -/
+theorem spawned_eq_edges (ops : List Op) : (run init ops).spawned = edges ops :=
+  (rel_run init {} ops ⟨rfl, rfl, by simp [init], rfl⟩).n
+
+/-- hence one end of input is never reported twice to a source that stayed enabled: EOF events ≤ switches from disabled to enabled -/
+theorem delivered_le_edges (ops : List Op) : (run init ops).delivered ≤ edges ops := by
+  have := delivered_le_spawned ops
+  rw [spawned_eq_edges] at this; exact this
+
+example : edges [.set true, .settle, .set true, .settle, .set false, .set true, .settle] = 1 := by decide
+
 /-! ### exactly once in the plain use: enabled once, then end of input -/
 
 /-- the state of a source that is enabled and reading, having delivered `n` events from `k` tasks -/
